@@ -79,6 +79,47 @@ template<class G> void run_alg(const std::string &alg, Toks &t, int scale, std::
         else throw std::runtime_error("bad alg");
         out << " RET " << exact_weight(ret, scale);
         print_cycles(out, c, cycles);
+        if (oracles) {
+            // the same call the way another caller may make it: on a communicator OTHER than MPI_COMM_WORLD (the same processes numbered in reverse, so that
+            // its rank 0 is world rank P-1), weights in an EXTERNAL associative property map (the interior property holds decoys in reversed order), cycles
+            // through a POSITIONAL output iterator into pre-sized storage.  On the communicator's rank 0: as many cycles as the first call gave on world
+            // rank 0, the same returned value, made of the caller's edges, weighing the returned value under the caller's map; nothing written elsewhere.
+            // (the per-rank trace hook is switched off for this call)
+            typedef typename boost::property_traits<decltype(wm)>::value_type W;
+            typedef std::map<Edge, W> Store;
+            unsigned long long n0 = cycles.size(); W ret0 = ret;
+            boost::mpi::broadcast(world, n0, 0); boost::mpi::broadcast(world, ret0, 0);
+            boost::mpi::communicator rev = world.split(0, world.size() - world.rank());
+            Store store; W mx = W();
+            for (auto &e : c.edges) { store[e] = boost::get(wm, e); if (mx < store[e]) mx = store[e]; }
+            for (auto &e : c.edges) boost::put(wm, e, mx + 1 - store[e]);
+            boost::associative_property_map<Store> xm(store);
+            std::vector<std::list<Edge>> slots((size_t) n0 + 2);
+            W ret2 = W();
+            unsetenv("PARMCB_VERIF_MPI_TRACE");
+            if (alg == "signed") ret2 = parmcb::mcb_sva_signed_mpi(c.g, xm, slots.begin(), rev);
+            else if (alg == "fvs") ret2 = parmcb::mcb_sva_fvs_trees_mpi(c.g, xm, slots.begin(), rev);
+            else if (alg == "fvs_tbb") ret2 = parmcb::mcb_sva_fvs_trees_tbb_mpi(c.g, xm, slots.begin(), rev);
+            else if (alg == "iso") ret2 = parmcb::mcb_sva_iso_trees_mpi(c.g, xm, slots.begin(), rev);
+            else ret2 = parmcb::mcb_sva_iso_trees_tbb_mpi(c.g, xm, slots.begin(), rev);
+            setenv("PARMCB_VERIF_MPI_TRACE", "1", 1);
+            for (auto &e : c.edges) boost::put(wm, e, store[e]);
+            const std::string what = "reversed communicator + external weight map + positional output iterator (world rank " + std::to_string(world.rank()) + ", communicator rank " + std::to_string(rev.rank()) + "): ";
+            size_t written = 0; W tot = W(); std::string bad;
+            for (size_t i = 0; i < slots.size() && bad.empty(); i++) {
+                if (slots[i].empty()) continue;
+                if (i != written) bad = "slot " + std::to_string(i) + " written, slot " + std::to_string(written) + " left empty";
+                written++;
+                for (auto &e : slots[i]) { if (c.id(e) == (size_t) -1) { bad = "a returned edge is not an edge of the caller's graph"; break; } tot = tot + store[e]; }
+            }
+            if (bad.empty() && rev.rank() != 0 && written != 0) bad = std::to_string(written) + " cycles written on a rank other than the communicator's rank 0";
+            if (bad.empty() && rev.rank() == 0) {
+                if (written != (size_t) n0) bad = std::to_string(written) + " cycles written, " + std::to_string(n0) + " on world rank 0 through back_inserter with the interior map";
+                else if (!(ret2 == ret0)) bad = "returned value " + exact_weight(ret2, scale) + " differs from " + exact_weight(ret0, scale) + " (MPI_COMM_WORLD, interior map, back_inserter)";
+                else if (!(tot == ret2)) bad = "the written cycles weigh " + exact_weight(tot, scale) + " under the caller's map, returned " + exact_weight(ret2, scale);
+            }
+            if (!bad.empty()) throw std::runtime_error(what + bad);
+        }
         out << " RANK " << world.rank() << " EMITTED " << cycles.size() << " DONE";
     }
     for (void *p : keep) ::operator delete(p);
